@@ -1,6 +1,7 @@
 SPECIFICATION SimSpec
 CONSTANT Names = {"a", "b", "c"}
 CONSTANT Models = {"m1", "m2", "m3", "m4"}
+CONSTANT Rename = FALSE
 CONSTANT Overwrite = FALSE
 CONSTANT MaxSaves = 5
 CHECK_DEADLOCK FALSE
